@@ -410,3 +410,475 @@ Proof.
 Qed.
 
 Print Assumptions C03_block_statement.
+
+(* ================================================================== *)
+(* (3) whole files mixing all five statement kinds *)
+Record rblock := { rb_lead : list token; rb_row : nat; rb_parts : list string; rb_hcomment : list token;
+                   rb_pre : list token; rb_indent : token; rb_members : list bmember; rb_tail : list token;
+                   rb_dedent : token }.
+Definition rblock_ok (o : oracle) (b : rblock) : Prop :=
+  Forall lead_tok (rb_lead b) /\ wf_name (rb_parts b) /\ Forall (fun t => ty t = COMMENT) (rb_hcomment b) /\
+  Forall trivia_tok (rb_pre b) /\ ty (rb_indent b) = INDENT /\ Forall (bmember_ok o) (rb_members b) /\
+  Forall trivia_tok (rb_tail b) /\ ty (rb_dedent b) = DEDENT.
+Definition rblock_tokens (b : rblock) : list token :=
+  rb_lead b ++ block_tokens (rb_row b) (rb_parts b) (rb_hcomment b) (rb_pre b) (rb_indent b) (rb_members b)
+                            (rb_tail b) (rb_dedent b).
+
+Inductive aitem :=
+| ABase (it : ritem)                       (* binding / import / from-import *)
+| AInclude (lead : list token) (row : nat) (strs trailing : list token) (v : out)
+| ABlock (b : rblock).
+
+Definition aitem_ok (o : oracle) (it : aitem) : Prop :=
+  match it with
+  | ABase it => ritem_ok o it
+  | AInclude lead _ strs trailing v =>
+      Forall lead_tok lead /\ Forall str_tok_ok strs /\ Forall trivia_tok trailing /\
+      lit_wf o (LStrs strs) /\ py_eval o (LStrs strs) = Some v /\ is_str_value v = true
+  | ABlock b => rblock_ok o b
+  end.
+Definition aitem_tokens (it : aitem) : list token :=
+  match it with
+  | ABase it => ritem_tokens it
+  | AInclude lead row strs trailing _ => lead ++ include_tokens_tr row strs trailing
+  | ABlock b => rblock_tokens b
+  end.
+(* the token the parser stops on: the statement's NEWLINE, or the block's DEDENT *)
+Definition aitem_end (it : aitem) : token :=
+  match it with
+  | ABase it => tok NEWLINE "" (ritem_row it)
+  | AInclude _ row _ _ _ => tok NEWLINE "" row
+  | ABlock b => rb_dedent b
+  end.
+Definition aitem_stmts (it : aitem) : list stmt :=
+  match it with
+  | ABase it => [ritem_expected it]
+  | AInclude _ row _ _ v => [SInclude v row]
+  | ABlock b => block_stmts (rb_row b) (rb_parts b) (rb_members b)
+  end.
+Fixpoint render_all (its : list aitem) : list token :=
+  match its with [] => [] | it :: t => aitem_tokens it ++ render_all t end.
+
+Lemma aitem_step : forall o it rest, aitem_ok o it ->
+  parse_statement o false (aitem_tokens it ++ rest) = POk (Some (aitem_stmts it, aitem_end it :: rest, true)).
+Proof.
+  intros o it rest H. destruct it as [it|lead row strs trailing v|b];
+    cbn [aitem_tokens aitem_stmts aitem_end].
+  - apply ritem_step; exact H.
+  - destruct H as [H1 [H2 [H3 [H4 [H5 H6]]]]]. rewrite <- app_assoc.
+    apply C03_include_statement_lead; assumption.
+  - destruct H as [H1 [H2 [H3 [H4 [H5 [H6 [H7 H8]]]]]]]. unfold rblock_tokens. rewrite <- app_assoc.
+    apply C03_block_statement; assumption.
+Qed.
+
+Lemma aitem_settle : forall o it rest, aitem_ok o it ->
+  settle (aitem_tokens it ++ rest) = POk (aitem_tokens it ++ rest).
+Proof.
+  intros o it rest H. destruct it as [it|lead row strs trailing v|b]; cbn [aitem_tokens].
+  - apply (ritem_settle o); exact H.
+  - destruct H as [H1 _]. rewrite <- app_assoc. rewrite include_tokens_app.
+    apply settle_lead; [exact H1 | discriminate | discriminate].
+  - destruct H as [H1 [H2 _]]. unfold rblock_tokens. rewrite <- app_assoc. rewrite block_tokens_app.
+    destruct (wf_name_alt _ H2) as [Hne _].
+    match goal with |- context [name_tokens ?r 0 ?p true ++ ?X] =>
+      destruct (name_tokens_head r 0 p X Hne) as [t0 [r0 [E0 [Hty0 _]]]] end.
+    rewrite E0. apply settle_lead; [exact H1 | rewrite Hty0; discriminate | rewrite Hty0; discriminate].
+Qed.
+
+Lemma all_pending : forall o fl eof, Forall lead_tok fl -> ty eof = ENDMARKER ->
+  forall its, Forall (aitem_ok o) its -> forall prev acc fuel, List.length its < fuel ->
+  parse_all fuel o true (prev :: render_all its ++ fl ++ [eof]) acc = (acc ++ flat_map aitem_stmts its, None).
+Proof.
+  intros o fl eof Hfl He its. induction its as [|it t IH]; intros Hits prev acc fuel Hfuel.
+  - destruct fuel as [|f]; [cbn in Hfuel; lia|]. rewrite parse_all_S. cbn [render_all app].
+    rewrite parse_statement_eof_pending; try assumption. cbn [flat_map]. rewrite app_nil_r. reflexivity.
+  - destruct fuel as [|f]; [cbn in Hfuel; lia|]. rewrite parse_all_S.
+    cbn [render_all]. rewrite <- !app_assoc.
+    rewrite parse_statement_pending; [| apply (aitem_settle o); exact (Forall_inv Hits)].
+    rewrite aitem_step; [|exact (Forall_inv Hits)].
+    rewrite IH; [| exact (Forall_inv_tail Hits) | cbn [List.length] in Hfuel; lia].
+    cbn [flat_map]. rewrite <- app_assoc. reflexivity.
+Qed.
+
+Theorem C03_roundtrip_all : forall o its final_lead eof,
+  Forall (aitem_ok o) its -> Forall lead_tok final_lead -> ty eof = ENDMARKER ->
+  exists fuel0, forall fuel, fuel0 <= fuel ->
+    parse_all fuel o false (render_all its ++ final_lead ++ [eof]) [] = (flat_map aitem_stmts its, None).
+Proof.
+  intros o its fl eof Hits Hfl He. exists (S (List.length its)). intros fuel Hfuel.
+  destruct fuel as [|f]; [lia|]. rewrite parse_all_S. destruct its as [|it t].
+  - cbn [render_all app]. rewrite parse_statement_eof; try assumption. reflexivity.
+  - cbn [render_all]. rewrite <- !app_assoc.
+    rewrite aitem_step; [|exact (Forall_inv Hits)].
+    rewrite (all_pending o fl eof Hfl He t (Forall_inv_tail Hits)); [| cbn [List.length] in Hfuel; lia].
+    reflexivity.
+Qed.
+
+Print Assumptions C03_roundtrip_all.
+
+(* ================================================================== *)
+(* (4) block layout = flat layout *)
+Definition is_bind (s : stmt) : bool := match s with SBind _ _ _ _ _ => true | _ => false end.
+
+(* --- the key  scope/sel  followed by  .param  splits into (scope, sel, param) --- *)
+Lemma word_not_sep : forall c, is_word c = true -> Ascii.eqb slash c = false /\ Ascii.eqb dot c = false.
+Proof.
+  intros c H. split.
+  - destruct (Ascii.eqb_spec slash c) as [E|E]; [|reflexivity]. subst c. vm_compute in H. discriminate.
+  - destruct (Ascii.eqb_spec dot c) as [E|E]; [|reflexivity]. subst c. vm_compute in H. discriminate.
+Qed.
+
+Lemma words_no_sep : forall s, all_chars is_word s = true ->
+  contains_char slash s = false /\ contains_char dot s = false.
+Proof.
+  induction s as [|c s IH]; intro H; [split; reflexivity|].
+  cbn [all_chars] in H. apply andb_true_iff in H. destruct H as [Hc Hs].
+  destruct (word_not_sep c Hc) as [E1 E2]. destruct (IH Hs) as [I1 I2].
+  cbn [contains_char]. rewrite E1, E2, I1, I2. split; reflexivity.
+Qed.
+
+Lemma ident_no_sep : forall p, is_identifier p = true ->
+  contains_char slash p = false /\ contains_char dot p = false.
+Proof.
+  intros [|c r] H; [discriminate|]. cbn [is_identifier] in H. apply andb_true_iff in H. destruct H as [Hc Hr].
+  apply words_no_sep. cbn [all_chars]. unfold is_word. rewrite Hc. cbn [orb]. exact Hr.
+Qed.
+
+Lemma rsplit1_append : forall sep a b, contains_char sep b = false ->
+  rsplit1 sep (a ++ b)%string =
+  match rsplit1 sep a with Some (x, y) => Some (x, (y ++ b)%string) | None => None end.
+Proof.
+  intros sep a b Hb. induction a as [|c a IH]; cbn [String.append rsplit1].
+  - apply rsplit1_none; exact Hb.
+  - rewrite IH. destruct (rsplit1 sep a) as [[x y]|]; [reflexivity|].
+    destruct (Ascii.eqb c sep); reflexivity.
+Qed.
+
+Lemma split_binding_key_extend : forall key p scope sel,
+  split_scoped key = (scope, sel) -> is_identifier p = true ->
+  split_binding_key (key ++ "." ++ p)%string = (scope, sel, p).
+Proof.
+  intros key p scope sel Hk Hp. destruct (ident_no_sep p Hp) as [Hs Hd].
+  assert (Hsl : contains_char slash ("." ++ p)%string = false).
+  { change ("." ++ p)%string with (String dot p). cbn [contains_char]. rewrite Hs. reflexivity. }
+  assert (E : split_scoped (key ++ "." ++ p)%string = (scope, (sel ++ "." ++ p)%string)).
+  { unfold split_scoped in *. rewrite (rsplit1_append _ _ _ Hsl).
+    destruct (rsplit1 slash key) as [[x y]|].
+    - injection Hk as <- <-. reflexivity.
+    - injection Hk as <- <-. reflexivity. }
+  unfold split_binding_key. rewrite E.
+  change ("." ++ p)%string with (String dot p). rewrite (rsplit1_app _ _ _ Hd). reflexivity.
+Qed.
+
+Lemma concat_strs_app : forall a b, concat_strs (a ++ b) = (concat_strs a ++ concat_strs b)%string.
+Proof.
+  induction a as [|x a IH]; intro b; [reflexivity|].
+  cbn [app concat_strs]. rewrite IH. rewrite append_assoc. reflexivity.
+Qed.
+
+Lemma name_text_extend : forall parts p, name_text (parts ++ ["."; p]) = (name_text parts ++ "." ++ p)%string.
+Proof.
+  intros parts p. unfold name_text. rewrite concat_strs_app. cbn [concat_strs]. rewrite append_nil_r. reflexivity.
+Qed.
+
+(* --- what a file binds: written names and values, in order --- *)
+Definition block_binds (b : rblock) : list (list string * out) :=
+  map (fun m => (rb_parts b ++ ["."; bm_param m], bm_value m)) (rb_members b).
+Definition aitem_binds (it : aitem) : list (list string * out) :=
+  match it with
+  | ABase (RBind r) => [(rs_parts r, rs_value r)]
+  | ABlock b => block_binds b
+  | _ => []
+  end.
+
+Lemma filter_binds : forall sc se (ms : list bmember),
+  filter is_bind (map (fun m => SBind sc se (bm_param m) (bm_value m) (bm_row m)) ms) =
+  map (fun m => SBind sc se (bm_param m) (bm_value m) (bm_row m)) ms.
+Proof. intros sc se ms. induction ms as [|m t IH]; [reflexivity|]. cbn [map filter is_bind]. rewrite IH. reflexivity. Qed.
+
+Lemma block_binds_spec : forall o b, rblock_ok o b ->
+  map strip_line (filter is_bind (block_stmts (rb_row b) (rb_parts b) (rb_members b))) = map stmt_of (block_binds b).
+Proof.
+  intros o b [_ [_ [_ [_ [_ [Hms _]]]]]]. unfold block_stmts, block_binds.
+  destruct (split_scoped (name_text (rb_parts b))) as [sc se] eqn:Ek.
+  cbn [filter is_bind]. rewrite filter_binds. rewrite !map_map.
+  apply map_ext_in. intros m Hm. rewrite Forall_forall in Hms. destruct (Hms m Hm) as [_ [Hid _]].
+  unfold stmt_of. cbn [fst snd strip_line]. rewrite name_text_extend.
+  rewrite (split_binding_key_extend _ _ _ _ Ek Hid). reflexivity.
+Qed.
+
+Lemma aitem_binds_spec : forall o it, aitem_ok o it ->
+  map strip_line (filter is_bind (aitem_stmts it)) = map stmt_of (aitem_binds it).
+Proof.
+  intros o it H. destruct it as [[r|lead row mparts alias|lead row mparts leaf alias]|lead row strs trailing v|b];
+    cbn [aitem_stmts aitem_binds ritem_expected]; try reflexivity.
+  - cbn [map]. rewrite <- strip_expected. unfold expected.
+    destruct (split_binding_key (name_text (rs_parts r))) as [[sc se] arg]. reflexivity.
+  - apply (block_binds_spec o); exact H.
+Qed.
+
+Lemma filter_flat_map : forall {A B} (f : B -> bool) (g : A -> list B) l,
+  filter f (flat_map g l) = flat_map (fun x => filter f (g x)) l.
+Proof.
+  intros A B f g l. induction l as [|x l IH]; [reflexivity|].
+  cbn [flat_map]. rewrite filter_app, IH. reflexivity.
+Qed.
+
+Lemma map_flat_map : forall {A B C} (h : B -> C) (g : A -> list B) l,
+  map h (flat_map g l) = flat_map (fun x => map h (g x)) l.
+Proof.
+  intros A B C h g l. induction l as [|x l IH]; [reflexivity|].
+  cbn [flat_map]. rewrite map_app, IH. reflexivity.
+Qed.
+
+Lemma all_binds_spec : forall o its, Forall (aitem_ok o) its ->
+  map strip_line (filter is_bind (flat_map aitem_stmts its)) = map stmt_of (flat_map aitem_binds its).
+Proof.
+  intros o its H. rewrite filter_flat_map. rewrite !map_flat_map.
+  induction its as [|it t IH]; [reflexivity|]. cbn [flat_map].
+  rewrite (aitem_binds_spec o it (Forall_inv H)). rewrite (IH (Forall_inv_tail H)). reflexivity.
+Qed.
+
+(* two files of any five kinds of statements, in any layouts, binding the same written names to the same
+   values in the same order (blocks or flat lines alike), yield the same bindings up to line numbers *)
+Theorem C03_bindings_layout_irrelevant : forall o its1 its2 fl1 fl2 eof1 eof2,
+  Forall (aitem_ok o) its1 -> Forall (aitem_ok o) its2 ->
+  flat_map aitem_binds its1 = flat_map aitem_binds its2 ->
+  Forall lead_tok fl1 -> Forall lead_tok fl2 -> ty eof1 = ENDMARKER -> ty eof2 = ENDMARKER ->
+  exists fuel0, forall fuel, fuel0 <= fuel ->
+    map strip_line (filter is_bind (fst (parse_all fuel o false (render_all its1 ++ fl1 ++ [eof1]) []))) =
+    map strip_line (filter is_bind (fst (parse_all fuel o false (render_all its2 ++ fl2 ++ [eof2]) []))) /\
+    snd (parse_all fuel o false (render_all its1 ++ fl1 ++ [eof1]) []) = None /\
+    snd (parse_all fuel o false (render_all its2 ++ fl2 ++ [eof2]) []) = None.
+Proof.
+  intros o its1 its2 fl1 fl2 eof1 eof2 H1 H2 Hsame Hfl1 Hfl2 He1 He2.
+  destruct (C03_roundtrip_all o its1 fl1 eof1 H1 Hfl1 He1) as [f1 Hf1].
+  destruct (C03_roundtrip_all o its2 fl2 eof2 H2 Hfl2 He2) as [f2 Hf2].
+  exists (f1 + f2). intros fuel Hfuel. rewrite Hf1 by lia. rewrite Hf2 by lia. cbn [fst snd].
+  split; [|split; reflexivity].
+  rewrite (all_binds_spec o its1 H1), (all_binds_spec o its2 H2), Hsame. reflexivity.
+Qed.
+
+(* the requested form: one block file against the flat file  scope/sel.param_i = value_i *)
+Theorem C03_block_equals_flat : forall o b flat fl1 fl2 eof1 eof2,
+  rblock_ok o b -> Forall (rstmt_ok o) flat ->
+  map (fun r => (rs_parts r, rs_value r)) flat = block_binds b ->
+  Forall lead_tok fl1 -> Forall lead_tok fl2 -> ty eof1 = ENDMARKER -> ty eof2 = ENDMARKER ->
+  exists fuel0, forall fuel, fuel0 <= fuel ->
+    map strip_line (filter is_bind (fst (parse_all fuel o false (rblock_tokens b ++ fl1 ++ [eof1]) []))) =
+    map strip_line (fst (parse_all fuel o false (render_file flat ++ fl2 ++ [eof2]) [])) /\
+    snd (parse_all fuel o false (rblock_tokens b ++ fl1 ++ [eof1]) []) = None /\
+    snd (parse_all fuel o false (render_file flat ++ fl2 ++ [eof2]) []) = None.
+Proof.
+  intros o b flat fl1 fl2 eof1 eof2 Hb Hflat Hsame Hfl1 Hfl2 He1 He2.
+  assert (Hits : Forall (aitem_ok o) [ABlock b]) by (constructor; [exact Hb | constructor]).
+  destruct (C03_roundtrip_all o [ABlock b] fl1 eof1 Hits Hfl1 He1) as [f1 Hf1].
+  destruct (C03_roundtrip_flat o flat fl2 eof2 Hflat Hfl2 He2) as [f2 Hf2].
+  exists (f1 + f2). intros fuel Hfuel.
+  specialize (Hf1 fuel ltac:(lia)). cbn [render_all aitem_tokens] in Hf1. rewrite app_nil_r in Hf1.
+  rewrite Hf1. rewrite Hf2 by lia. cbn [fst snd flat_map aitem_stmts]. rewrite app_nil_r.
+  split; [|split; reflexivity].
+  rewrite (block_binds_spec o b Hb). rewrite strip_expected_map. rewrite Hsame. reflexivity.
+Qed.
+
+Print Assumptions C03_bindings_layout_irrelevant.
+Print Assumptions C03_block_equals_flat.
+
+(* ------------------------------------------------------------------ *)
+(* the flat counterpart of a block always exists: scope/sel.param is a well-formed written name, so the
+   flat file built from the block's own members satisfies rstmt_ok *)
+Lemma split_aux_nosep : forall sep t cur, contains_char sep t = false ->
+  split_aux sep t cur = [(cur ++ t)%string].
+Proof.
+  intros sep t. induction t as [|c t IH]; intros cur H.
+  - cbn [split_aux]. rewrite append_nil_r. reflexivity.
+  - cbn [contains_char] in H. apply orb_false_iff in H. destruct H as [Hc Ht].
+    cbn [split_aux]. destruct (Ascii.eqb_spec c sep) as [E|E].
+    + subst c. rewrite Ascii.eqb_refl in Hc. discriminate.
+    + rewrite (IH _ Ht). rewrite append_assoc. reflexivity.
+Qed.
+
+Lemma split_aux_ne : forall sep s cur, split_aux sep s cur <> [].
+Proof.
+  intros sep s. induction s as [|c s IH]; intro cur; cbn [split_aux]; [discriminate|].
+  destruct (Ascii.eqb c sep); [discriminate | apply IH].
+Qed.
+
+Lemma split_aux_app_nosep : forall sep t, contains_char sep t = false -> forall s cur,
+  split_aux sep (s ++ t)%string cur =
+  removelast (split_aux sep s cur) ++ [(last (split_aux sep s cur) "" ++ t)%string].
+Proof.
+  intros sep t Ht s. induction s as [|c s IH]; intro cur.
+  - cbn [String.append split_aux removelast last app]. apply split_aux_nosep; exact Ht.
+  - cbn [String.append split_aux]. destruct (Ascii.eqb c sep).
+    + rewrite IH. pose proof (split_aux_ne sep s "") as Hne.
+      destruct (split_aux sep s "") as [|l0 L]; [congruence|]. reflexivity.
+    + apply IH.
+Qed.
+
+Lemma split_aux_dot_app : forall p, contains_char dot p = false -> forall u cur,
+  split_aux dot (u ++ String dot p)%string cur = split_aux dot u cur ++ [p].
+Proof.
+  intros p Hp u. induction u as [|c u IH]; intro cur.
+  - cbn [String.append split_aux]. rewrite Ascii.eqb_refl. rewrite (split_aux_nosep _ _ _ Hp). reflexivity.
+  - cbn [String.append split_aux]. destruct (Ascii.eqb c dot); [rewrite IH; reflexivity | apply IH].
+Qed.
+
+Lemma fmt_extend : forall key p, selector_format_ok true false key = true -> is_identifier p = true ->
+  selector_format_ok true false (key ++ "." ++ p)%string = true.
+Proof.
+  intros key p Hk Hp. destruct (ident_no_sep p Hp) as [Hs Hd].
+  assert (Hsl : contains_char slash ("." ++ p)%string = false).
+  { change ("." ++ p)%string with (String dot p). cbn [contains_char]. rewrite Hs. reflexivity. }
+  unfold selector_format_ok, split_slash, split in *.
+  rewrite (split_aux_app_nosep slash _ Hsl).
+  set (L := split_aux slash key "") in *.
+  rewrite removelast_last, last_last.
+  cbn [orb] in *. rewrite andb_true_r in *. apply andb_true_iff in Hk. destruct Hk as [H1 H2].
+  rewrite H1. cbn [andb].
+  unfold is_selector, split_dot, split in *.
+  change ("." ++ p)%string with (String dot p). rewrite (split_aux_dot_app _ Hd).
+  rewrite forallb_app, H2. cbn [forallb]. rewrite Hp. reflexivity.
+Qed.
+
+Lemma alt_ok_app : forall l m b, alt_ok l b -> alt_ok m false -> alt_ok (l ++ m) b.
+Proof.
+  induction l as [|x l IH]; intros m b Hl Hm.
+  - cbn [alt_ok] in Hl. subst b. exact Hm.
+  - cbn [alt_ok app] in *. destruct Hl as [Hx Hl]. split; [exact Hx | apply IH; assumption].
+Qed.
+
+Lemma wf_name_extend : forall parts p, wf_name parts -> is_identifier p = true -> wf_name (parts ++ ["."; p]).
+Proof.
+  intros parts p Hwf Hp. destruct (wf_name_alt _ Hwf) as [Hne [Hfmt Halt]].
+  assert (A : alt_ok (parts ++ ["."; p]) true).
+  { apply alt_ok_app; [exact Halt|]. cbn [alt_ok negb]. split; [right; reflexivity|]. split; [exact Hp | reflexivity]. }
+  unfold wf_name. split.
+  - intro E. apply app_eq_nil in E. destruct E as [_ E]. discriminate.
+  - split; [rewrite name_text_extend; apply fmt_extend; assumption | exact A].
+Qed.
+
+Definition flat_of (parts : list string) (m : bmember) : rstmt :=
+  {| rs_lead := bm_lead m; rs_row := bm_row m; rs_parts := parts ++ ["."; bm_param m];
+     rs_vtoks := bm_vtoks m; rs_trailing := bm_trailing m; rs_value := bm_value m |}.
+
+Lemma flat_of_ok : forall o parts m, wf_name parts -> bmember_ok o m -> rstmt_ok o (flat_of parts m).
+Proof.
+  intros o parts m Hwf [Hl [Hid [Htr [Hok Hex]]]]. unfold rstmt_ok, flat_of. cbn.
+  split. { eapply Forall_impl; [|exact Hl]. cbn beta. intros x [Hx|Hx]; unfold lead_tok; tauto. }
+  split. { apply wf_name_extend; assumption. }
+  split; [exact Htr|]. split; [exact Hok | exact Hex].
+Qed.
+
+(* rewriting a block as flat lines (same member layouts) gives the same bindings: no side conditions left *)
+Corollary C03_block_equals_own_flat : forall o b fl1 fl2 eof1 eof2,
+  rblock_ok o b -> Forall lead_tok fl1 -> Forall lead_tok fl2 -> ty eof1 = ENDMARKER -> ty eof2 = ENDMARKER ->
+  exists fuel0, forall fuel, fuel0 <= fuel ->
+    map strip_line (filter is_bind (fst (parse_all fuel o false (rblock_tokens b ++ fl1 ++ [eof1]) []))) =
+    map strip_line (fst (parse_all fuel o false
+                           (render_file (map (flat_of (rb_parts b)) (rb_members b)) ++ fl2 ++ [eof2]) [])) /\
+    snd (parse_all fuel o false (rblock_tokens b ++ fl1 ++ [eof1]) []) = None /\
+    snd (parse_all fuel o false (render_file (map (flat_of (rb_parts b)) (rb_members b)) ++ fl2 ++ [eof2]) []) = None.
+Proof.
+  intros o b fl1 fl2 eof1 eof2 Hb Hfl1 Hfl2 He1 He2.
+  apply C03_block_equals_flat; try assumption.
+  - destruct Hb as [_ [Hwf [_ [_ [_ [Hms _]]]]]]. apply Forall_forall. intros r Hr.
+    apply in_map_iff in Hr. destruct Hr as [m [<- Hm]]. rewrite Forall_forall in Hms.
+    apply flat_of_ok; [exact Hwf | exact (Hms m Hm)].
+  - unfold block_binds. rewrite map_map. reflexivity.
+Qed.
+
+Print Assumptions C03_block_equals_own_flat.
+
+(* ================================================================== *)
+(* non-vacuity: a rendered two-member block preceded by a comment line
+
+     # header comment
+     a/b:            # cfg
+       x = 1
+       # inner comment
+       y = 2
+*)
+Definition ex_o : oracle := [("1", Some (OZ 1)); ("2", Some (OZ 2))].
+Definition ex_num (s : string) (row : nat) : token :=
+  {| ty := NUMBER; text := s; srow := row; scol := 6; erow := row; ecol := 7 |}.
+Definition ex_m1 : bmember :=
+  {| bm_lead := []; bm_row := 3; bm_param := "x"; bm_vtoks := [ex_num "1" 3]; bm_trailing := []; bm_value := OZ 1 |}.
+Definition ex_m2 : bmember :=
+  {| bm_lead := [tok COMMENT "# inner comment" 4; tok NL "" 4]; bm_row := 5; bm_param := "y";
+     bm_vtoks := [ex_num "2" 5]; bm_trailing := []; bm_value := OZ 2 |}.
+Definition ex_block : rblock :=
+  {| rb_lead := [tok COMMENT "# header comment" 1; tok NL "" 1]; rb_row := 2; rb_parts := ["a"; "/"; "b"];
+     rb_hcomment := [tok COMMENT "# cfg" 2]; rb_pre := []; rb_indent := tok INDENT "  " 3;
+     rb_members := [ex_m1; ex_m2]; rb_tail := []; rb_dedent := tok DEDENT "" 6 |}.
+
+Lemma ex_member_ok : forall s row z lead p, olookup ex_o s = Some (Some z) -> Forall trivia_tok lead ->
+  is_identifier p = true -> text_ok s ->
+  bmember_ok ex_o {| bm_lead := lead; bm_row := row; bm_param := p; bm_vtoks := [ex_num s row];
+                     bm_trailing := []; bm_value := z |}.
+Proof.
+  intros s row z lead p Ho Hl Hp Hs. unfold bmember_ok. cbn.
+  split; [exact Hl|]. split; [exact Hp|]. split; [constructor|].
+  split. { constructor; [|constructor]. intros _. exact Hs. }
+  exists (LBasic false (ex_num s row)), (fun _ => []), 0, 2.
+  split. { intro k. constructor. }
+  split. { cbn. split; [tauto|]. destruct Hs as [_ [H _]]. exact H. }
+  split; [|reflexivity]. cbn [py_eval].
+  change (("" ++ text (ex_num s row))%string) with s. rewrite Ho. reflexivity.
+Qed.
+
+Example ex_block_ok : rblock_ok ex_o ex_block.
+Proof.
+  unfold rblock_ok, ex_block. cbn.
+  split. { constructor; [|constructor; [|constructor]]; unfold lead_tok; cbn; tauto. }
+  split. { unfold wf_name. split; [discriminate|]. split; [reflexivity|]. cbn. repeat split; auto. }
+  split. { constructor; [reflexivity | constructor]. }
+  split; [constructor|]. split; [reflexivity|].
+  split.
+  { constructor; [|constructor; [|constructor]].
+    - apply ex_member_ok; [reflexivity | constructor | reflexivity |].
+      unfold text_ok. cbn. repeat split; discriminate.
+    - apply ex_member_ok; [reflexivity | | reflexivity |].
+      + constructor; [right; reflexivity | constructor; [left; reflexivity | constructor]].
+      + unfold text_ok. cbn. repeat split; discriminate. }
+  split; [constructor | reflexivity].
+Qed.
+
+Definition ex_file : list token := render_all [ABlock ex_block] ++ [] ++ [tok ENDMARKER "" 6].
+
+Example ex_block_parse :
+  parse_all 5 ex_o false ex_file [] =
+  ([SBlock "a" "b" 2; SBind "a" "b" "x" (OZ 1) 3; SBind "a" "b" "y" (OZ 2) 5], None).
+Proof. vm_compute. reflexivity. Qed.
+
+(* ... which is what the roundtrip theorem predicts *)
+Example ex_block_expected :
+  flat_map aitem_stmts [ABlock ex_block] = [SBlock "a" "b" 2; SBind "a" "b" "x" (OZ 1) 3; SBind "a" "b" "y" (OZ 2) 5].
+Proof. vm_compute. reflexivity. Qed.
+
+(* the same bindings written flat *)
+Example ex_flat_parse :
+  parse_all 5 ex_o false (render_file (map (flat_of ["a"; "/"; "b"]) [ex_m1; ex_m2]) ++ [] ++ [tok ENDMARKER "" 6]) [] =
+  ([SBind "a" "b" "x" (OZ 1) 3; SBind "a" "b" "y" (OZ 2) 5], None).
+Proof. vm_compute. reflexivity. Qed.
+
+(* an include with two adjacent string pieces *)
+Definition ex_str (s : string) : token := {| ty := STRING; text := s; srow := 1; scol := 8; erow := 1; ecol := 9 |}.
+Definition ex_oi : oracle := [("'a'", Some (OT "str" [OS "a"])); ("'a' 'b'", Some (OT "str" [OS "ab"]))].
+Example ex_include_ok :
+  aitem_ok ex_oi (AInclude [] 1 [ex_str "'a'"; ex_str "'b'"] [tok COMMENT "# c" 1] (OT "str" [OS "ab"])).
+Proof.
+  cbn [aitem_ok]. split; [constructor|].
+  split. { constructor; [|constructor; [|constructor]]; unfold str_tok_ok; cbn; lia. }
+  split. { constructor; [right; reflexivity | constructor]. }
+  split.
+  { cbn [lit_wf]. split; [discriminate|]. split.
+    - constructor; [reflexivity | constructor; [reflexivity | constructor]].
+    - cbn [prefixes_ne map]. constructor; [eexists; reflexivity | constructor; [eexists; reflexivity | constructor]]. }
+  split; reflexivity.
+Qed.
+Example ex_include_parse :
+  parse_all 5 ex_oi false
+    (render_all [AInclude [] 1 [ex_str "'a'"; ex_str "'b'"] [tok COMMENT "# c" 1] (OT "str" [OS "ab"])] ++ [] ++
+     [tok ENDMARKER "" 2]) [] = ([SInclude (OT "str" [OS "ab"]) 1], None).
+Proof. vm_compute. reflexivity. Qed.
